@@ -855,6 +855,38 @@ mod tests {
     }
 
     #[test]
+    fn test_decode_deeply_nested_model() {
+        use crate::protobuf::ErrorKind;
+        use crate::protobuf::varint::encode_varint;
+
+        // Wrap a message in a length-delimited field of a parent message.
+        fn wrap(field: u64, msg: Vec<u8>) -> Vec<u8> {
+            let mut buf = encode_varint((field << 3) | 2);
+            buf.extend(encode_varint(msg.len() as u64));
+            buf.extend(msg);
+            buf
+        }
+
+        // Create a model where the graph has a node with a subgraph, which has
+        // a node with a subgraph etc.
+        let nested_model = |n_subgraphs: usize| {
+            let mut graph = Vec::new();
+            for _ in 0..n_subgraphs {
+                let attr = wrap(6 /* AttributeProto.g */, graph);
+                let node = wrap(5 /* NodeProto.attribute */, attr);
+                graph = wrap(1 /* GraphProto.node */, node);
+            }
+            wrap(7 /* ModelProto.graph */, graph)
+        };
+
+        let model = ModelProto::parse_buf(&nested_model(50)).unwrap();
+        assert_eq!(model.graph.unwrap().node.len(), 1);
+
+        let err = ModelProto::parse_buf(&nested_model(10_000)).err().unwrap();
+        assert!(matches!(err.kind(), ErrorKind::NestingTooDeep));
+    }
+
+    #[test]
     fn test_is_onnx_model() {
         let model_path = test_file_path("mnist.onnx");
         let file = File::open(model_path).unwrap();
